@@ -21,6 +21,13 @@ import CLModel.Proofs.C14MMatch
 import CLModel.Proofs.C14MTexts
 import CLModel.Proofs.C14MCor
 import CLModel.Props.C12
+import CLModel.Compare.FilterObserver
+import CLModel.Proofs.C14QObs
+import CLModel.Props.C10
+import CLModel.Proofs.C14LLazy
+import CLModel.Paths.FilterPy
+import CLModel.Proofs.C14PPy
+import CLModel.Proofs.C14RKeys
 namespace C14
 open Filt Filt.Spec
 
@@ -549,6 +556,585 @@ theorem star_rule_stops_at_slash {locales : Option (List (List Nat))} {environ :
 
 end Composed
 
+
+/-! ## round 4 — filter ∘ Observer ∘ ContentComparer at EVERY quiet level (`Compare/FilterObserver.lean`)
+
+`Observer.notify` consults the filter BEFORE it looks at the quiet level, for every category: the quiet level
+(`-q`, `-qq`, …) decides only which details are listed.  The C10 theorems (`C10.notify_ret`, `C10.quiet_summary_inv`,
+`C10.quiet_monotone`) say this for an abstract filter and an abstract history; here the filter is
+`ProjectConfig.filter` and the history is the one `ContentComparer.compare` produces, whose LENGTH AND CONTENT
+depend on the returned verdicts (counts, `missings` for the merge). -/
+section Quiet
+open ObsM FiltObs C14Q
+
+/-- **`Observer.notify` returns the filter's verdict whatever the quiet level, for every category**, and the
+    summary / error-flag increments do not depend on quiet either: two observers with the same filter, summary and
+    error flag — but any two quiet levels and any details — answer the same and stay in step. -/
+theorem notify_verdict_quiet_free (o1 o2 o1' o2' : ObsM.Obs) (cat : Cat) (file : ObsM.File) (data : Data) (rv1 rv2 : Ret)
+    (hf : o1.filter = o2.filter) (hs : o1.summary = o2.summary) (he : o1.error = o2.error)
+    (h1 : o1.notify cat file data = .ok (o1', rv1)) (h2 : o2.notify cat file data = .ok (o2', rv2)) :
+    rv1 = rv2 ∧ rv1 = rvOf o1.filter cat file data ∧ o1'.summary = o2'.summary ∧ o1'.error = o2'.error := by
+  obtain ⟨a1, b1, _⟩ := notify_ok h1
+  obtain ⟨a2, b2, _⟩ := notify_ok h2
+  have hc : o1.core = o2.core := by simp [Obs.core, hs, he]
+  have : o1'.core = o2'.core := by rw [b1, b2, hf, hc]
+  simp only [Obs.core, Prod.mk.injEq] at this
+  exact ⟨by rw [a1, a2, hf], a1, this.1, this.2⟩
+
+/-- the verdict `Observer(quiet, filter=config.filter).notify(category, file, key)` returns is
+    `config.filter(file)` for the file categories and `config.filter(file, key)` for all others — hence
+    (`filter_spec`) the reference verdict: last applicable rule, error by default, most severe of own and included —
+    at every quiet level. -/
+theorem notify_project_verdict (o o' : ObsM.Obs) (cfg : Config) (fp : ObsM.File → Text) (cat : Cat) (file : ObsM.File)
+    (loc k : Text) (rv : Ret) (ho : o.filter = some (projectFilter cfg fp)) (hl : file.locale = some loc)
+    (h : o.notify cat file (.str k) = .ok (o', rv)) :
+    rv = toRet (verdict cfg ⟨fp file, loc⟩ (if cat.isFile then none else some k)) := by
+  rw [(notify_ok h).1, ho, ← filter_spec]
+  cases hc : cat.isFile <;> simp [rvOf, hc, projectFilter, hl]
+
+/-- `ObserverList.notify` (what `ContentComparer` acts on): two lists whose project observers have the same
+    filters return the same verdict — the most severe of the filters' answers — whatever their quiet levels. -/
+theorem list_notify_quiet_free (l1 l2 l1' l2' : ObsList) (cat : Cat) (file : ObsM.File) (data : Data) (rv1 rv2 : Ret)
+    (hf : l1.filters = l2.filters)
+    (h1 : l1.notify cat file data = .ok (l1', rv1)) (h2 : l2.notify cat file data = .ok (l2', rv2)) :
+    rv1 = rv2 ∧ rv1 = listRet (l1.filters.map (fun flt => rvOf flt cat file data)) := by
+  have e1 := (list_notify_spec h1).1
+  have e2 := (list_notify_spec h2).1
+  have m : ∀ l : ObsList, l.observers.map (fun o => rvOf o.filter cat file data)
+      = l.filters.map (fun flt => rvOf flt cat file data) := by
+    intro l; simp [ObsList.filters, List.map_map, Function.comp_def]
+  rw [m] at e1 e2
+  exact ⟨by rw [e1, e2, hf], e1⟩
+
+/-- **The comparison does not depend on the quiet level.**  `ContentComparer(q)` with `Observer(q, filter)` for
+    every filter in `flts`, against the same with `q'`, over the same keys (`evs`: missing / obsolete keys, Junk,
+    checker messages, in `AddRemove` order): the counters `missing`, `missing_w`, `report`, `obsolete`, the keys
+    handed to the merge (`missings`) and every verdict returned by `observers.notify` are EQUAL — they are the
+    closed form `accSpec` of the filters' answers —, and so are the summary and the error flag of the list and of
+    every project observer.  (Only the details differ: `compareq_details_monotone`.) -/
+theorem compareq_quiet_free (q q' : Nat) (flts : List (Option Filter)) (file : ObsM.File) (evs : List KeyEv)
+    (b : BothCounts) (l1 l2 : ObsList) (a1 a2 : CmpAcc)
+    (h1 : compareQ (fresh q flts) file evs b = .ok (l1, a1))
+    (h2 : compareQ (fresh q' flts) file evs b = .ok (l2, a2)) :
+    a1 = a2 ∧ a1 = accSpec flts file evs CmpAcc.zero ∧
+    l1.own.summary = l2.own.summary ∧ l1.own.error = l2.own.error ∧
+    l1.observers.map (fun o => (o.summary, o.error)) = l2.observers.map (fun o => (o.summary, o.error)) := by
+  obtain ⟨e1, r1⟩ := compareQ_spec h1
+  obtain ⟨e2, r2⟩ := compareQ_spec h2
+  rw [fresh_filters] at e1 e2 r1 r2
+  have hown : l1.own.core = l2.own.core := by rw [fresh_own_core_run r1, fresh_own_core_run r2]
+  simp only [Obs.core, Prod.mk.injEq] at hown
+  have hobs := (fresh_observers_core r1).trans (fresh_observers_core r2).symm
+  exact ⟨by rw [e1, e2], e1, hown.1, hown.2, hobs⟩
+
+/-- raising the quiet level only removes listed details: for the list's own observer and for every project
+    observer, per path, the details at the higher level are a sublist of those at the lower level. -/
+theorem compareq_details_monotone (q q' : Nat) (hq : q ≤ q') (flts : List (Option Filter)) (file : ObsM.File)
+    (evs : List KeyEv) (b : BothCounts) (l1 l2 : ObsList) (a1 a2 : CmpAcc)
+    (h1 : compareQ (fresh q flts) file evs b = .ok (l1, a1))
+    (h2 : compareQ (fresh q' flts) file evs b = .ok (l2, a2)) (p : List TreeM.Part) :
+    ((TreeM.find l2.own.details p).getD []).Sublist ((TreeM.find l1.own.details p).getD []) ∧
+    ∀ (i : Nat) (o1 o2 : ObsM.Obs), l1.observers[i]? = some o1 → l2.observers[i]? = some o2 →
+      ((TreeM.find o2.details p).getD []).Sublist ((TreeM.find o1.details p).getD []) := by
+  obtain ⟨_, r1⟩ := compareQ_spec h1
+  obtain ⟨_, r2⟩ := compareQ_spec h2
+  rw [fresh_filters] at r1 r2
+  refine ⟨C10.quiet_monotone q q' hq none _ _ _ (fresh_own_run r1) (fresh_own_run r2) p, ?_⟩
+  intro i o1 o2 hi1 hi2
+  obtain ⟨f1, hf1, hr1⟩ := fresh_observer_run r1 i o1 hi1
+  obtain ⟨f2, hf2, hr2⟩ := fresh_observer_run r2 i o2 hi2
+  rw [hf1] at hf2
+  cases hf2
+  exact C10.quiet_monotone q q' hq f1 _ _ _ hr1 hr2 p
+
+/-- the comparison never raises on a modelled file (in particular `assert len(rvs) == 1` cannot fail), and its
+    result is the closed form -/
+theorem compareq_total (q : Nat) (flts : List (Option Filter)) (file : ObsM.File) (evs : List KeyEv) (b : BothCounts)
+    (hm : Modelled file) :
+    ∃ l', compareQ (fresh q flts) file evs b = .ok (l', accSpec flts file evs CmpAcc.zero) := by
+  have hev : ∀ ev ∈ historyOf flts file evs b, Modelled ev.file := by
+    intro ev hev
+    simp only [historyOf, List.mem_append, List.mem_map, List.mem_singleton] at hev
+    rcases hev with ⟨e, _, rfl⟩ | rfl <;> exact hm
+  obtain ⟨l', hr⟩ := C10.list_run_total q flts (historyOf flts file evs b) hev
+  have := compareQ_of_run (l := fresh q flts) (file := file) (evs := evs) (b := b) (l' := l')
+    (by rw [fresh_filters]; exact hr)
+  rw [fresh_filters] at this
+  exact ⟨l', this⟩
+
+/-- **One project configuration, every quiet level**: with `v key = config.filter(l10n_file, key)`,
+    `missing` = number of missing keys with verdict error, `report` = those with verdict warning, the merge gets
+    exactly the error keys (in order), `missing_w` their word counts, `obsolete` = number of obsolete keys whose
+    verdict is not ignore, and the i-th value returned by `notify` is the verdict of the i-th key.
+    (`compare_respects_filter` is the quiet = 0, missing-only instance.) -/
+theorem compareq_counts (q : Nat) (cfg : Config) (fp : ObsM.File → Text) (file : ObsM.File) (loc : Text)
+    (hl : file.locale = some loc) (evs : List KeyEv) (b : BothCounts) (l' : ObsList) (acc : CmpAcc)
+    (h : compareQ (fresh q [some (projectFilter cfg fp)]) file evs b = .ok (l', acc)) :
+    let v := fun k => filter cfg ⟨fp file, loc⟩ (some k)
+    acc.missing = ((missKeys evs).filter (fun kw => v kw.1 == .error)).length ∧
+    acc.report = ((missKeys evs).filter (fun kw => v kw.1 == .warning)).length ∧
+    acc.missings = ((missKeys evs).filter (fun kw => v kw.1 == .error)).map (·.1) ∧
+    acc.missingW = (((missKeys evs).filter (fun kw => v kw.1 == .error)).map (·.2)).sum ∧
+    acc.obsolete = ((obsKeys evs).filter (fun k => v k != .ignore)).length := by
+  intro v
+  obtain ⟨e, _⟩ := compareQ_spec h
+  rw [fresh_filters] at e
+  have c := accSpec_counts [some (projectFilter cfg fp)] file evs CmpAcc.zero
+  rw [← e] at c
+  have hm : ∀ k, missRv [some (projectFilter cfg fp)] file k = toRet (v k) := missRv_project cfg fp file loc hl
+  have ho : ∀ k, obsRv [some (projectFilter cfg fp)] file k = toRet (v k) := obsRv_project cfg fp file loc hl
+  have t1 : ∀ a : Action, (toRet a == Ret.error) = (a == Action.error) := fun a => by cases a <;> rfl
+  have t2 : ∀ a : Action, (toRet a == Ret.warning) = (a == Action.warning) := fun a => by cases a <;> rfl
+  have t3 : ∀ a : Action, (toRet a != Ret.ignore) = (a != Action.ignore) := fun a => by cases a <;> rfl
+  refine ⟨?_, ?_, ?_, ?_, ?_⟩
+  · rw [c.missing]; simp [CmpAcc.zero, hm, t1]
+  · rw [c.report]; simp [CmpAcc.zero, hm, t2]
+  · rw [c.missings]; simp [CmpAcc.zero, hm, t1]
+  · rw [c.missingW]; simp [CmpAcc.zero, hm, t1]
+  · rw [c.obsolete]; simp [CmpAcc.zero, ho, t3]
+
+/-- ignored keys at every quiet level: a missing key the configuration ignores is neither counted nor merged, an
+    ignored obsolete key is not counted; a warning-level missing key is not merged -/
+theorem compareq_ignored_keys (q : Nat) (cfg : Config) (fp : ObsM.File → Text) (file : ObsM.File) (loc : Text)
+    (hl : file.locale = some loc) (evs : List KeyEv) (b : BothCounts) (l' : ObsList) (acc : CmpAcc)
+    (h : compareQ (fresh q [some (projectFilter cfg fp)]) file evs b = .ok (l', acc)) :
+    (∀ k, filter cfg ⟨fp file, loc⟩ (some k) ≠ .error → k ∉ acc.missings) ∧
+    acc.missing = acc.missings.length ∧
+    acc.missing + acc.report ≤ (missKeys evs).length ∧ acc.obsolete ≤ (obsKeys evs).length := by
+  obtain ⟨c1, c2, c3, _, c5⟩ := compareq_counts q cfg fp file loc hl evs b l' acc h
+  simp only at c1 c2 c3 c5
+  refine ⟨?_, ?_, ?_, ?_⟩
+  · intro k hk hmem
+    rw [c3] at hmem
+    simp only [List.mem_map, List.mem_filter, beq_iff_eq] at hmem
+    obtain ⟨kw, ⟨_, hv⟩, rfl⟩ := hmem
+    exact hk hv
+  · rw [c1, c3, List.length_map]
+  · rw [c1, c2]
+    generalize missKeys evs = ks
+    induction ks with
+    | nil => simp
+    | cons kw ks ih =>
+      simp only [List.filter_cons, List.length_cons]
+      cases hv : filter cfg ⟨fp file, loc⟩ (some kw.1) <;> simp <;> omega
+  · rw [c5]; exact List.length_filter_le _ _
+
+/-- the round-0 model `compareMissing` (`Compare/MissingFilter.lean`: quiet 0, missing keys only) is the
+    restriction of the full model: same `missing`, `report` and merged keys, at EVERY quiet level -/
+theorem compareq_refines_missing (q : Nat) (observers : List Filt.Obs) (file : ObsM.File) (keys : List Text)
+    (b : BothCounts) (l' : ObsList) (acc : CmpAcc)
+    (h : compareQ (fresh q (observers.map (liftObs file))) file (keys.map (fun k => KeyEv.missing k 0)) b = .ok (l', acc)) :
+    ∃ out, compareMissing observers keys = .ok out ∧
+      out.acc.missing = acc.missing ∧ out.acc.report = acc.report ∧ out.acc.missings = acc.missings := by
+  refine ⟨_, compareMissing_eq observers keys, ?_⟩
+  obtain ⟨e, _⟩ := compareQ_spec h
+  rw [fresh_filters] at e
+  have c := accSpec_counts (observers.map (liftObs file)) file (keys.map (fun k => KeyEv.missing k 0)) CmpAcc.zero
+  rw [← e] at c
+  have hk := missKeys_map keys
+  have hv : ∀ k, missRv (observers.map (liftObs file)) file k = toRet (combined observers k) := by
+    intro k
+    simp only [missRv, List.map_map, Function.comp_def, rvOf_liftObs]
+    have := listRet_map_toRet (observers.map (fun o => obsVerdict o k))
+    rw [List.map_map] at this
+    simp only [Function.comp_def] at this
+    rw [this, contains_map_eq_any, contains_map_eq_any]
+    rfl
+  have t1 : ∀ a : Action, (toRet a == Ret.error) = (a == Action.error) := fun a => by cases a <;> rfl
+  have t2 : ∀ a : Action, (toRet a == Ret.warning) = (a == Action.warning) := fun a => by cases a <;> rfl
+  refine ⟨?_, ?_, ?_⟩
+  · rw [c.missing, hk]; simp [missingSpec, MissAcc.zero, CmpAcc.zero, hv, t1, List.filter_map, Function.comp_def]
+  · rw [c.report, hk]; simp [missingSpec, MissAcc.zero, CmpAcc.zero, hv, t2, List.filter_map, Function.comp_def]
+  · rw [c.missings, hk]; simp [missingSpec, MissAcc.zero, CmpAcc.zero, hv, t1, List.filter_map, Function.comp_def]
+
+/-- **whole files, every quiet level**: `ContentComparer.add` (missing file) and `remove` (obsolete file) get the
+    configuration's FILE verdict (`filter(file)`, key-less rules) whatever the quiet level; a missing file that is
+    ignored is not counted; the `missing` / `missing_w` counts that reach the summaries do not depend on quiet. -/
+theorem files_quiet_free (q q' : Nat) (flts : List (Option Filter)) (file : ObsM.File) (n w : Nat)
+    (l1 l2 m1 m2 : ObsList) (rv1 rv2 rv3 rv4 : Ret)
+    (h1 : addFileQ (fresh q flts) file n w = .ok (l1, rv1)) (h2 : addFileQ (fresh q' flts) file n w = .ok (l2, rv2))
+    (h3 : removeFileQ (fresh q flts) file = .ok (m1, rv3)) (h4 : removeFileQ (fresh q' flts) file = .ok (m2, rv4)) :
+    rv1 = rv2 ∧ rv1 = fileRv flts .missingFile file ∧ rv3 = rv4 ∧ rv3 = fileRv flts .obsoleteFile file ∧
+    l1.own.summary = l2.own.summary ∧
+    l1.observers.map (fun o => (o.summary, o.error)) = l2.observers.map (fun o => (o.summary, o.error)) ∧
+    (rv1 = .ignore → ∀ loc key, getCount l1.own.summary loc key = 0) := by
+  obtain ⟨a1, r1⟩ := addFileQ_spec h1
+  obtain ⟨a2, r2⟩ := addFileQ_spec h2
+  obtain ⟨a3, _⟩ := removeFileQ_spec h3
+  obtain ⟨a4, _⟩ := removeFileQ_spec h4
+  rw [fresh_filters] at a1 a2 a3 a4 r1 r2
+  have hown : l1.own.core = l2.own.core := by rw [fresh_own_core_run r1, fresh_own_core_run r2]
+  simp only [Obs.core, Prod.mk.injEq] at hown
+  refine ⟨by rw [a1, a2], a1, by rw [a3, a4], a3, hown.1, (fresh_observers_core r1).trans (fresh_observers_core r2).symm, ?_⟩
+  intro hi loc key
+  have hc := fresh_own_core_run r1
+  have hrv : (fileRv flts .missingFile file == Ret.ignore) = true := by rw [← a1, hi]; rfl
+  have hign : ignList flts (.notify .missingFile file .none) = true := by
+    have : fileRv flts .missingFile file = .ignore := by rw [← a1, hi]
+    simp only [fileRv, listRet] at this
+    by_cases hall : (flts.map (fun flt => rvOf flt .missingFile file .none)).all (· == .ignore) = true
+    · simpa [ignList, List.all_map] using hall
+    · simp only [hall, Bool.false_eq_true, ↓reduceIte] at this
+      split at this <;> cases this
+  have hs : l1.own.summary = [] := by
+    have := congrArg Prod.fst hc
+    simp only [Obs.core, addFileHistory, hrv, ↓reduceIte, coreRun, List.foldl_cons, List.foldl_nil, coreEv, coreNotify,
+      hign] at this
+    exact this
+  rw [hs]; rfl
+
+end Quiet
+
+/-! ## round 4 — laziness, exactly (`Proofs/C14LLazy.lean`)
+
+`filterm_eq_filter` is one-directional: the eager instantiation may raise where the code returns.  What the code
+does is characterised here by EQUATIONS and EQUIVALENCES over the model with the raise sites (`FiltM`): which matchers
+are consulted, in which order, and which are not.  `firstD l` is the first element of a list of answers that is not
+`ok false` (a `true` or an exception), `ok false` if there is none. -/
+section Lazy
+open FiltM PM C14M C14L
+
+/-- `firstD` is "the first decisive answer": a decisive `x` (a `true`, an exception) comes out iff it occurs after a
+    prefix of `ok false` answers — whatever follows it, raising answers included; `ok false` comes out iff every
+    answer is `ok false`. -/
+theorem first_decisive_spec {ε : Type} (l : List (Except ε Bool)) :
+    (firstD l = match l.find? decisive with | some x => x | none => .ok false) ∧
+    (∀ x, decisive x = true → (firstD l = x ↔ ∃ pre post, l = pre ++ x :: post ∧ ∀ y ∈ pre, y = .ok false)) ∧
+    (firstD l = .ok false ↔ ∀ x ∈ l, x = .ok false) :=
+  ⟨firstD_eq_find l, fun x hx => firstD_eq_iff l x hx, firstD_ok_false_iff l⟩
+
+/-- the covered test `any(p.match(fullpath) is not None for p in cached.l10n_paths)` is lazy: the first decisive
+    answer of the `l10n` matchers in order; a matcher behind a matching one is not consulted -/
+theorem covered_test_lazy (fp : List Nat) (ps : List PM.Matcher) :
+    anyMatchS fp ps = firstD (ps.map (matchesS · fp)) :=
+  anyMatchS_eq fp ps
+
+/-- **the reverse rule scan, as an equivalence.**  `rs` is the cached rule list REVERSED (scan order).  The scan
+    returns `a` iff some rule tests `ok true` (its path matches and the key part fits), every rule scanned before it
+    — i.e. every LATER rule of the configuration — tests `ok false`, and `a` is its action; or all rules test
+    `ok false` and `a` is `error`.  It raises `e` iff some rule's test raises `e` after `ok false` tests only.
+    Rules behind the decisive one (EARLIER in the configuration) are never consulted: nothing is assumed of them.
+    The test of a rule consults the path first: a raising path matcher raises even if the key part would not fit. -/
+theorem rule_scan_lazy (fp : List Nat) (entity : Option (List Nat)) (rs : List CachedRuleS) :
+    (∀ a, scanRulesS fp entity rs = .ok a ↔
+      (∃ pre r post, rs = pre ++ r :: post ∧ (∀ q ∈ pre, ruleTestS fp entity q = .ok false) ∧
+        ruleTestS fp entity r = .ok true ∧ a = r.action) ∨
+      ((∀ q ∈ rs, ruleTestS fp entity q = .ok false) ∧ a = .error)) ∧
+    (∀ e, scanRulesS fp entity rs = .error e ↔
+      ∃ pre r post, rs = pre ++ r :: post ∧ (∀ q ∈ pre, ruleTestS fp entity q = .ok false) ∧
+        ruleTestS fp entity r = .error e) :=
+  ⟨scan_ok_iff fp entity rs, scan_error_iff fp entity rs⟩
+
+/-- `cache(locale)` is EAGER: `with_env({"locale": locale})` is called for every enabled `l10n` matcher in order, then
+    for every rule in order, before any `match`: the first one that raises decides -/
+theorem cache_is_eager (loc : List Nat) (ps : List PathEntryS) (rs : List RuleS) :
+    cachePaths loc ps = (ps.filter (fun p => enabledFor p.locales loc)).mapM (fun p => p.l10n.withEnv (localeEnv loc)) ∧
+    cacheRules loc rs = rs.mapM (fun r => do
+      let m ← r.path.withEnv (localeEnv loc)
+      pure (⟨m, r.key, r.action⟩ : CachedRuleS)) :=
+  ⟨cachePaths_eq loc ps, cacheRules_eq loc rs⟩
+
+/-- the excluded configurations are consulted lazily and through their public `filter` on the FILE: the first decisive
+    answer of `exclude.filter(file) == "error"` in order; the included configurations are ALL evaluated, in order
+    (a set comprehension) -/
+theorem excludes_lazy_includes_eager (file : File) (entity : Option (List Nat)) (exs cs : List ConfigS) :
+    anyExcludeErrorS exs file = firstD (exs.map (excludeHitS file)) ∧
+    childActionsS cs file entity = cs.mapM (fun c => filterInnerS c file entity) :=
+  ⟨anyExcludeErrorS_eq file exs, childActionsS_eq_mapM file entity cs⟩
+
+/-- **`_filter` with its evaluation order spelled out** (an equation, for every node of every configuration tree):
+    excludes lazily, included configurations eagerly, early `error`, the two eager loops of `cache`, the covered
+    test lazily, the rule scan lazily from the end. -/
+theorem filter_inner_lazy (locales : Option (List (List Nat))) (paths : List PathEntryS) (rules : List RuleS)
+    (children excludes : List ConfigS) (file : File) (entity : Option (List Nat)) :
+    filterInnerS (.mk locales paths rules children excludes) file entity =
+      (do
+        if (← firstD (excludes.map (excludeHitS file))) then pure none else
+        let actions ← children.mapM (fun c => filterInnerS c file entity)
+        if actions.contains (some .error) then pure (some .error) else
+        let ps ← (paths.filter (fun p => enabledFor p.locales file.locale)).mapM
+          (fun p => p.l10n.withEnv (localeEnv file.locale))
+        let rs ← rules.mapM (fun r => do
+          let m ← r.path.withEnv (localeEnv file.locale)
+          pure (⟨m, r.key, r.action⟩ : CachedRuleS))
+        if (← firstD (ps.map (matchesS · file.fullpath))) then do
+          let a ← scanRulesS file.fullpath entity rs.reverse
+          pure (pick (actions ++ [some a]))
+        else pure (pick actions)) :=
+  filterInnerS_lazy locales paths rules children excludes file entity
+
+/-- **Last rule wins, at lazy strength, on the texts** (replaces the hypothesis `instantiate … = ok` of
+    `last_rule_wins_texts` — "every matcher of the configuration returns" — by what the code really needs).
+    A configuration without included / excluded ones.  Needed: every `Matcher(...)` constructor returns (`build`: the
+    constructors run when the configuration is built), every `with_env` of `cache` returns (enabled paths, all
+    rules), the file is covered lazily (`CoveredLazy`: a matching enabled `l10n` text, the enabled ones BEFORE it
+    answering "no match"), the rule text `r` applies, every LATER rule text is skipped (returns, and does not apply).
+    NOT needed: anything about `match` of the rules before `r` or of the `l10n` texts after the covering one —
+    they may raise (`ExamplesM.lazy_witness`). -/
+theorem last_rule_wins_lazy {locales : Option (List (List Nat))} {environ : Environ} {root : Option (List Nat)}
+    {paths : List PathEntryM} {pre post : List RuleM} {r : RuleM} {s : ConfigS} {file : File}
+    {entity : Option (List Nat)}
+    (hb : build (.mk locales environ root paths (pre ++ r :: post) [] []) = .ok s)
+    (hloc : namesLocale locales paths file.locale = true)
+    (hbindp : ∀ p ∈ paths, enabledFor p.locales file.locale = true →
+      ∃ b, boundMatcher environ root p.l10n file.locale = .ok b)
+    (hbindr : ∀ q ∈ pre ++ r :: post, ∃ b, boundMatcher environ root q.path file.locale = .ok b)
+    (hcov : CoveredLazy environ root paths file) (hr : RuleApplies environ root r file entity)
+    (hpost : ∀ q ∈ post, RuleSkipped environ root q file entity) :
+    filterM (.mk locales environ root paths (pre ++ r :: post) [] []) file entity = .ok r.action := by
+  obtain ⟨lp, lr, hlp, hlr, hrel, hf⟩ := leaf_eval entity hb hloc hbindp hbindr
+  rw [hf, firstD_covered hlp hcov]
+  obtain ⟨c, rest, hc, hs⟩ := scan_split hlr hrel hpost
+  simp only
+  rw [hs, ruleTest_text hc, hr.1]
+  simp only [Bool.true_and, hr.2]
+  rw [hc.2.1]
+
+/-- … and the converse direction for exceptions: if the path matcher of `r` RAISES `e` (later rules skipped, file
+    covered lazily), `filter` raises `e` — whatever the earlier rules are -/
+theorem rule_raise_lazy {locales : Option (List (List Nat))} {environ : Environ} {root : Option (List Nat)}
+    {paths : List PathEntryM} {pre post : List RuleM} {r : RuleM} {s : ConfigS} {file : File}
+    {entity : Option (List Nat)} {e : PM.PyErr}
+    (hb : build (.mk locales environ root paths (pre ++ r :: post) [] []) = .ok s)
+    (hloc : namesLocale locales paths file.locale = true)
+    (hbindp : ∀ p ∈ paths, enabledFor p.locales file.locale = true →
+      ∃ b, boundMatcher environ root p.l10n file.locale = .ok b)
+    (hbindr : ∀ q ∈ pre ++ r :: post, ∃ b, boundMatcher environ root q.path file.locale = .ok b)
+    (hcov : CoveredLazy environ root paths file)
+    (hr : patMatches environ root r.path file.locale file.fullpath = .error e)
+    (hpost : ∀ q ∈ post, RuleSkipped environ root q file entity) :
+    filterM (.mk locales environ root paths (pre ++ r :: post) [] []) file entity = .error e := by
+  obtain ⟨lp, lr, hlp, hlr, hrel, hf⟩ := leaf_eval entity hb hloc hbindp hbindr
+  rw [hf, firstD_covered hlp hcov]
+  obtain ⟨c, rest, hc, hs⟩ := scan_split hlr hrel hpost
+  simp only
+  rw [hs, ruleTest_text hc, hr]
+
+/-- error by default at lazy strength: covered lazily and every rule text is skipped -/
+theorem default_error_lazy {locales : Option (List (List Nat))} {environ : Environ} {root : Option (List Nat)}
+    {paths : List PathEntryM} {rules : List RuleM} {s : ConfigS} {file : File} {entity : Option (List Nat)}
+    (hb : build (.mk locales environ root paths rules [] []) = .ok s)
+    (hloc : namesLocale locales paths file.locale = true)
+    (hbindp : ∀ p ∈ paths, enabledFor p.locales file.locale = true →
+      ∃ b, boundMatcher environ root p.l10n file.locale = .ok b)
+    (hbindr : ∀ q ∈ rules, ∃ b, boundMatcher environ root q.path file.locale = .ok b)
+    (hcov : CoveredLazy environ root paths file)
+    (hall : ∀ q ∈ rules, RuleSkipped environ root q file entity) :
+    filterM (.mk locales environ root paths rules [] []) file entity = .ok .error := by
+  obtain ⟨lp, lr, hlp, hlr, hrel, hf⟩ := leaf_eval entity hb hloc hbindp hbindr
+  rw [hf, firstD_covered hlp hcov]
+  simp only
+  rw [scan_ok_iff]
+  refine Or.inr ⟨?_, rfl⟩
+  intro c hc
+  rw [List.mem_reverse] at hc
+  obtain ⟨p, hp, rfl⟩ := List.mem_map.mp hc
+  obtain ⟨bb, h1, h2⟩ := hall p.1 (hlr ▸ List.mem_map.mpr ⟨p, hp, rfl⟩)
+  rw [ruleTest_text (hrel p hp), h1]
+  simp only [h2]
+
+end Lazy
+
+/-! ## round 4 — how a rule key is compiled, on TEXTS; `[[filters]]` tables -/
+section KeysAndToml
+open FiltM C14R
+
+/-- **a `re:` key compiles exactly the text after the marker**, whatever that text starts with: `key[3:]` removes the
+    three characters of the marker `re:` once — `re:re:x` compiles `re:x`, `re:external` compiles `external`
+    (a `lstrip("re:")`-style removal would eat the `e`).  The marker and the slice length are regenerated from the
+    source (`ruleKeyRePrefix`, `ruleKeyReSlice`): if they stop fitting each other this proof breaks. -/
+theorem re_key_text (e : Text) : compiledKeyText (Gen.Tables.ruleKeyRePrefix ++ e) = e := by
+  have hp : Gen.Tables.ruleKeyRePrefix.isPrefixOf (Gen.Tables.ruleKeyRePrefix ++ e) = true := by
+    rw [List.isPrefixOf_iff_prefix]; exact List.prefix_append _ _
+  rw [compiledKeyText, if_pos hp]
+  show (Gen.Tables.ruleKeyRePrefix ++ e).drop Gen.Tables.ruleKeyReSlice = e
+  have : Gen.Tables.ruleKeyReSlice = Gen.Tables.ruleKeyRePrefix.length := by decide
+  rw [this, List.drop_left]
+
+/-- **a literal key compiles `re.escape(key) + "$"`**: every character of the key as itself — with a backslash in
+    front of the characters `re.escape` escapes, so that un-escaping gives the key back — followed by `$` -/
+theorem literal_key_text (k : Text) (h : Gen.Tables.ruleKeyRePrefix.isPrefixOf k = false) :
+    compiledKeyText k = reEscape k ++ [36] ∧ unEscape (reEscape k) = k := by
+  refine ⟨?_, unEscape_reEscape k⟩
+  rw [compiledKeyText, h]
+  rfl
+
+/-- the abstract literal branch IS the translation of the compiled text: the recogniser the `c14.keytext`
+    correspondence applies to the translation `r` of the real `rule["key"].pattern` accepts exactly
+    `escapedDollar key`; so for a literal key, running the translated real pattern and `compileKey` agree on every
+    entity — and `literal_key` says what they accept: the key (or the key plus one newline), as a WHOLE (`match` at
+    position 0 and `$`), not as a prefix and not anywhere inside (`search`). -/
+theorem literal_branch_is_translation (k : RawKey) (h : Gen.Tables.ruleKeyRePrefix.isPrefixOf k.text = false) :
+    (litDollarText k.compiled = some k.text ↔ k.compiled = escapedDollar k.text) ∧
+    (litDollarText k.compiled = some k.text →
+      ∀ e, (KeyPred.regex k.compiled).matches e = (compileKey k).matches e) := by
+  refine ⟨⟨litDollarText_sound _ _, fun hk => by rw [hk]; exact litDollarText_complete _⟩, ?_⟩
+  intro hk e
+  have := litDollarText_sound _ _ hk
+  unfold compileKey
+  rw [h]
+  simp only [KeyPred.matches, KeyPred.toRe, this, Bool.false_eq_true, ↓reduceIte]
+
+/-- `TOMLParser.processFilters` on the `[[filters]]` tables of a file = `add_rules` of the tables as written: a path
+    given as a string and the one-element list compile to the same rules, keys and actions are passed through -/
+theorem toml_filters_spec (tables : List RawRuleM) :
+    processFiltersM tables = addRulesM [] tables ∧
+    (∀ (p : List Nat) (k : Option (OneOrMany RawKey)) (a : Action),
+      compileRuleM ⟨.many [p], k, a⟩ = compileRuleM ⟨.one p, k, a⟩) :=
+  ⟨processFiltersM_eq tables, compileRuleM_single⟩
+
+end KeysAndToml
+
+/-! ## round 4 — legacy filter.py mixed with rules; the guards of the object graph; `set_locales(deep)` -/
+section FilterPy
+open FiltP C14P
+
+/-- **what `filter_` makes of the legacy callable's result**: raising (any `BaseException`) → error; `True` → error,
+    `False` → ignore, `"report"` → warning; `"error"` / `"ignore"` / `"warning"` pass; `None` passes as `None`;
+    every other string and every other hashable object → `AssertionError`; an unhashable object → `TypeError`
+    (raised by the `dict.get`, outside the `try`). -/
+theorem filter_py_normalisation (f : PyFilter) (m : Option Text) (p : Text) (e : Option Text) :
+    (f m p e = .raised → filterPyCall f m p e = .ok (some .error)) ∧
+    (f m p e = .bool true → filterPyCall f m p e = .ok (some .error)) ∧
+    (f m p e = .bool false → filterPyCall f m p e = .ok (some .ignore)) ∧
+    (f m p e = .none → filterPyCall f m p e = .ok none) ∧
+    (f m p e = .unhashable → filterPyCall f m p e = .error .typeError) ∧
+    (f m p e = .other → filterPyCall f m p e = .error .assertion) ∧
+    (∀ a : Action, f m p e = .str (Action.name a) → filterPyCall f m p e = .ok (some a)) ∧
+    (f m p e = .str [114, 101, 112, 111, 114, 116] → filterPyCall f m p e = .ok (some .warning)) ∧
+    (∀ s, f m p e = .str s → s ≠ [114, 101, 112, 111, 114, 116] → (∀ a : Action, s ≠ Action.name a) →
+      filterPyCall f m p e = .error .assertion) := by
+  refine ⟨?_, ?_, ?_, ?_, ?_, ?_, ?_, ?_, ?_⟩
+  · intro h; rw [filterPyCall, h]; decide
+  · intro h; rw [filterPyCall, h]; decide
+  · intro h; rw [filterPyCall, h]; decide
+  · intro h; rw [filterPyCall, h]; decide
+  · intro h; rw [filterPyCall, h]
+  · intro h; rw [filterPyCall, h]
+  · intro a h; rw [filterPyCall, h]; cases a <;> decide
+  · intro h; rw [filterPyCall, h]; decide
+  · intro s h hr ha
+    rw [filterPyCall, h]
+    have h1 : normStr s = s := by
+      simp only [normStr, Gen.Tables.filterPyStrMap, List.lookup_cons, List.lookup_nil]
+      have : (s == [114, 101, 112, 111, 114, 116]) = false := by simpa using hr
+      rw [this]
+    have h2 : Gen.Tables.filterPyAllowed.contains s = false := by
+      have e1 := ha .error
+      have e2 := ha .ignore
+      have e3 := ha .warning
+      simp only [Action.name] at e1 e2 e3
+      simp [Gen.Tables.filterPyAllowed, e1, e2, e3]
+    simp only [h1, h2, Bool.false_eq_true, ↓reduceIte]
+
+/-- **the legacy callable wins over everything below it**: a configuration with `filter_py` answers — after the
+    locale test — with the normalised result of the callable on `(file.module, file.file, entity)`; its rules (there
+    are none: `py_rules_exclusive`), its included AND its excluded configurations are never consulted. -/
+theorem filter_py_wins (f : PyFilter) (locales : Option (List Text)) (paths : List PathEntry) (rules : List Rule)
+    (children excludes : List ConfigP) (file : FileP) (entity : Option Text) :
+    filterP (.mk (some f) locales paths rules children excludes) file entity =
+      if (allLocalesP (.mk (some f) locales paths rules children excludes)).contains file.locale
+      then filterPyCall f file.module file.file entity else .ok (some .ignore) := by
+  rw [filterP]
+  cases (allLocalesP (.mk (some f) locales paths rules children excludes)).contains file.locale <;> rfl
+
+/-- **the callable of an INCLUDED configuration is dead**: the parent calls `child._filter`, which never looks at
+    `filter_py`; clearing the callables of all included configurations (at any depth, `clr`) changes no answer.
+    An included legacy configuration therefore contributes `error` for every file its paths cover (it cannot have
+    rules). -/
+theorem included_py_dead (c : ConfigP) (file : FileP) (entity : Option Text) :
+    filterP (clr false c) file entity = filterP c file entity ∧
+    (∀ b, filterInnerP (clr b c) file entity = filterInnerP c file entity) :=
+  ⟨filterP_clr c file entity, fun b => filterInnerP_clr b c file entity⟩
+
+/-- **the callable of an EXCLUDED configuration is consulted** (through its public `filter`, on the file): the
+    exclude fires iff the locale is named and the normalised answer is error; `None` / warning / ignore do not fire;
+    an `AssertionError` / `TypeError` of the normalisation propagates. -/
+theorem excluded_py_consulted (f : PyFilter) (locales : Option (List Text)) (paths : List PathEntry) (rules : List Rule)
+    (children excludes rest : List ConfigP) (file : FileP) :
+    anyExcludeErrorP (.mk (some f) locales paths rules children excludes :: rest) file =
+      (if !(allLocalesP (.mk (some f) locales paths rules children excludes)).contains file.locale
+        then anyExcludeErrorP rest file
+       else match filterPyCall f file.module file.file none with
+        | .ok rv => if rv == some Action.error then .ok true else anyExcludeErrorP rest file
+        | .error e => .error e) := by
+  rw [anyExcludeErrorP]
+  simp only [ConfigP.filterPy]
+  by_cases hl : (allLocalesP (.mk (some f) locales paths rules children excludes)).contains file.locale = true
+  · simp only [hl, Bool.not_true, Bool.false_eq_true, ↓reduceIte, bind, Except.bind, pure, Except.pure]
+    cases filterPyCall f file.module file.file none with
+    | error e => rfl
+    | ok rv => cases hrv : (rv == some Action.error) <;> simp [hrv]
+  · have hl' : file.locale ∉ allLocalesP (.mk (some f) locales paths rules children excludes) := by
+      simpa using hl
+    simp [hl', bind, Except.bind, pure, Except.pure]
+
+/-- without any legacy callable the model is `Paths/Filter.lean`: every theorem above applies -/
+theorem filterp_no_py (c : ConfigP) (file : FileP) (entity : Option Text) (h : noPy c = true) :
+    filterP c file entity = .ok (some (filter (erase c) file.toFile entity)) :=
+  filterP_noPy c file entity h
+
+/-- **rules and a legacy callable never meet on one configuration**: `set_filter_py` asserts that there are no
+    rules, `add_rules` (even of zero rules) asserts that there is no callable; after either succeeds the
+    configuration has a callable or rules, not both. -/
+theorem py_rules_exclusive (c : ConfigP) (f : PyFilter) (raws : List RawRule) :
+    (setFilterPy c f = .error .assertion ↔ c.rules ≠ []) ∧
+    (addRulesP c raws = .error .assertion ↔ c.filterPy.isSome = true) ∧
+    (∀ c', setFilterPy c f = .ok c' → c'.filterPy.isSome = true ∧ c'.rules = []) ∧
+    (∀ c', addRulesP c raws = .ok c' → c'.filterPy = none ∧ c'.rules = addRules c.rules raws) := by
+  cases c with
+  | mk g l p r ch ex =>
+    refine ⟨?_, ?_, ?_, ?_⟩
+    · simp only [setFilterPy, ConfigP.rules]
+      cases r <;> simp
+    · simp only [addRulesP, ConfigP.filterPy]
+      cases g <;> simp
+    · intro c' h
+      simp only [setFilterPy] at h
+      cases r with
+      | nil => simp at h; subst h; simp [ConfigP.filterPy, ConfigP.rules]
+      | cons a b => simp at h
+    · intro c' h
+      simp only [addRulesP] at h
+      cases g with
+      | none => simp at h; subst h; simp [ConfigP.filterPy, ConfigP.rules]
+      | some _ => simp at h
+
+/-- `add_child` refuses a configuration that declares excludes, `exclude` refuses one that — itself or through an
+    included configuration — declares excludes (`ExcludeError`); otherwise they append -/
+theorem add_child_exclude_guards (c child : ConfigP) :
+    (addChild c child = .error .excludeError ↔ child.excludes ≠ []) ∧
+    (excludeP c child = .error .excludeError ↔ anyExcludes child = true) ∧
+    (∀ c', addChild c child = .ok c' → c'.children = c.children ++ [child] ∧ c'.excludes = c.excludes) ∧
+    (∀ c', excludeP c child = .ok c' → c'.excludes = c.excludes ++ [child] ∧ c'.children = c.children) := by
+  cases c with
+  | mk g l p r ch ex =>
+    refine ⟨?_, ?_, ?_, ?_⟩
+    · simp only [addChild]
+      cases child.excludes <;> simp
+    · simp only [excludeP]
+      cases anyExcludes child <;> simp
+    · intro c' h
+      simp only [addChild] at h
+      cases hce : child.excludes with
+      | nil => rw [hce] at h; simp at h; subst h; simp [ConfigP.children, ConfigP.excludes]
+      | cons a b => rw [hce] at h; simp at h
+    · intro c' h
+      simp only [excludeP] at h
+      cases hae : anyExcludes child with
+      | false => rw [hae] at h; simp at h; subst h; simp [ConfigP.children, ConfigP.excludes]
+      | true => rw [hae] at h; simp at h
+
+/-- **`set_locales(locales, deep=True)`** reaches the configuration and every included one (not the excluded ones):
+    afterwards the project names a locale iff it is in `locales` or in a `locales` list of some `paths` entry; and the
+    locales only gate the public entry — `_filter` (own verdict, included and excluded configurations) is unchanged. -/
+theorem set_locales_deep_spec (c : ConfigP) (ls : Option (List Text)) (l : Text) (file : FileP) (entity : Option Text) :
+    (l ∈ allLocalesP (setLocalesDeep c ls) ↔ l ∈ optLocales ls ∨ l ∈ pathLocales c) ∧
+    filterInnerP (setLocalesDeep c ls) file entity = filterInnerP c file entity :=
+  ⟨mem_allLocalesP_deep c ls l, filterInnerP_setLocalesDeep c ls file entity⟩
+
+end FilterPy
+
 /-! ## non-vacuity: the model evaluated on concrete configurations (no theorem used)
 
 Texts are code point lists: `one` = [111,110,101], `two` = [116,119,111].  The path predicate
@@ -737,6 +1323,165 @@ example : (boundMatcher [] none (T "/{locale}/a") (T "d*") >>= fun b => b.match 
 example : filterM (.mk (some [de, fr]) [(localeName, T "zz")] none [cover] [litRule, locStarRule] [] []) aFr none
     = .ok .warning := by decide +kernel
 
+
+theorem exists_of_isOk {ε α : Type} {x : Except ε α} (h : isOk x = true) : ∃ b, x = .ok b := by
+  cases x with
+  | ok b => exact ⟨b, rfl⟩
+  | error e => cases h
+
+/-- non-vacuity of `last_rule_wins_lazy` exactly where `last_rule_wins_texts` does not apply: the configuration of
+    `lazy_witness` — the rule BEFORE the winning one raises on `match` (so `instantiate` raises), its `with_env`
+    returns; every hypothesis of the lazy theorem holds -/
+example : filterM (.mk (some [de]) dupEnv none [cover] ([boom] ++ locStarRule :: []) [] []) aDe none = .ok .warning := by
+  have hb := exists_of_isOk (x := build (.mk (some [de]) dupEnv none [cover] ([boom] ++ locStarRule :: []) [] []))
+    (by decide +kernel)
+  obtain ⟨s, hbs⟩ := hb
+  refine C14.last_rule_wins_lazy (r := locStarRule) hbs (by decide) ?_ ?_ ?_ ?_ ?_
+  · intro p hp _
+    simp only [List.mem_singleton] at hp
+    subst hp
+    exact exists_of_isOk (by decide +kernel)
+  · intro q hq
+    simp only [List.cons_append, List.nil_append, List.mem_cons, List.not_mem_nil, or_false] at hq
+    rcases hq with rfl | rfl
+    · exact exists_of_isOk (by decide +kernel)
+    · exact exists_of_isOk (by decide +kernel)
+  · exact ⟨[], cover, [], rfl, (fun _ h => by cases h), by decide +kernel⟩
+  · exact ⟨by decide +kernel, rfl⟩
+  · intro q hq; cases hq
+
+/-- … and `rule_raise_lazy` with the raising rule AFTER the applicable one -/
+example : filterM (.mk (some [de]) dupEnv none [cover] ([locStarRule] ++ boom :: []) [] []) aDe none = .error .reError := by
+  obtain ⟨s, hbs⟩ := exists_of_isOk (x := build (.mk (some [de]) dupEnv none [cover] ([locStarRule] ++ boom :: []) [] []))
+    (by decide +kernel)
+  refine C14.rule_raise_lazy (r := boom) hbs (by decide) ?_ ?_ ?_ ?_ ?_
+  · intro p hp _
+    simp only [List.mem_singleton] at hp
+    subst hp
+    exact exists_of_isOk (by decide +kernel)
+  · intro q hq
+    simp only [List.cons_append, List.nil_append, List.mem_cons, List.not_mem_nil, or_false] at hq
+    rcases hq with rfl | rfl
+    · exact exists_of_isOk (by decide +kernel)
+    · exact exists_of_isOk (by decide +kernel)
+  · exact ⟨[], cover, [], rfl, (fun _ h => by cases h), by decide +kernel⟩
+  · decide +kernel
+  · intro q hq; cases hq
+
 end ExamplesM
+
+
+
+/-! ## round 4: non-vacuity and negation witnesses (evaluation, no theorem used unless said) -/
+namespace ExamplesR4
+open ObsM FiltObs C14Q FiltP FiltM C14M C14L PM
+
+def one : List Nat := [111, 110, 101]
+def two : List Nat := [116, 119, 111]
+def obs1 : List Nat := [111, 98, 115]
+def de : List Nat := [100, 101]
+def everywhere : PathM := ⟨fun _ _ => true⟩
+/-- rules: key "one" ignore, key "two" warning, key "obs" ignore; everything else error by default -/
+def cfg : Config := .mk (some [de]) [⟨everywhere, none⟩]
+  [⟨everywhere, some (.literal one), .ignore⟩, ⟨everywhere, some (.literal two), .warning⟩,
+   ⟨everywhere, some (.literal obs1), .ignore⟩] [] []
+def l10n : ObsM.File := ⟨[97], none, some de⟩
+def flts : List (Option Filter) := [some (projectFilter cfg (fun _ => [1]))]
+/-- missing: one (ignored), two (warning), x (error); obsolete: obs (ignored), y (counted) -/
+def evs : List KeyEv := [.missing one 2, .missing two 3, .obsolete obs1, .missing [120] 5, .obsolete [121]]
+
+def summaryOf (r : Except TreeM.PyErr (ObsList × CmpAcc)) : Option (CmpAcc × List (Nat × Nat × Nat)) :=
+  match r with
+  | .ok (l, a) => some (a, l.observers.map (fun o =>
+      (getCount o.summary (some de) .missing, getCount o.summary (some de) .report, getCount o.summary (some de) .obsolete)))
+  | .error _ => none
+
+def detailCount (r : Except TreeM.PyErr (ObsList × CmpAcc)) : Option Nat :=
+  match r with
+  | .ok (l, _) => some ((TreeM.flatten l.own.details).flatMap (·.2)).length
+  | .error _ => none
+
+/-- the comparison evaluated at quiet 0, 1, 2 and 4: counters, merged keys, returned verdicts and summaries are the
+    same (`compareq_quiet_free`), missing = 1 (x), report = 1 (two), obsolete = 1 (y), merged = [x], missing_w = 5;
+    only the number of listed details shrinks: 3, 2, 0, 0 -/
+example : summaryOf (compareQ (fresh 0 flts) l10n evs ⟨0, 0, 0, 0, 0⟩)
+    = some (⟨1, 5, 1, 1, [[120]], [.ignore, .warning, .ignore, .error, .error]⟩, [(1, 1, 1)]) := by decide +kernel
+example : summaryOf (compareQ (fresh 1 flts) l10n evs ⟨0, 0, 0, 0, 0⟩)
+    = summaryOf (compareQ (fresh 0 flts) l10n evs ⟨0, 0, 0, 0, 0⟩) := by decide +kernel
+example : summaryOf (compareQ (fresh 2 flts) l10n evs ⟨0, 0, 0, 0, 0⟩)
+    = summaryOf (compareQ (fresh 0 flts) l10n evs ⟨0, 0, 0, 0, 0⟩) := by decide +kernel
+example : summaryOf (compareQ (fresh 4 flts) l10n evs ⟨0, 0, 0, 0, 0⟩)
+    = summaryOf (compareQ (fresh 0 flts) l10n evs ⟨0, 0, 0, 0, 0⟩) := by decide +kernel
+example : detailCount (compareQ (fresh 0 flts) l10n evs ⟨0, 0, 0, 0, 0⟩) = some 3 ∧
+    detailCount (compareQ (fresh 1 flts) l10n evs ⟨0, 0, 0, 0, 0⟩) = some 2 ∧
+    detailCount (compareQ (fresh 2 flts) l10n evs ⟨0, 0, 0, 0, 0⟩) = some 0 := by decide +kernel
+
+/-- `compareq_counts` needs `file.locale = some loc`: a file without locale is ignored altogether -/
+example : summaryOf (compareQ (fresh 0 flts) ⟨[97], none, none⟩ evs ⟨0, 0, 0, 0, 0⟩)
+    = some (⟨0, 0, 0, 0, [], [.ignore, .ignore, .ignore, .ignore, .ignore]⟩, [(0, 0, 0)]) := by decide +kernel
+
+/-- `compareq_total` needs a modelled file (a `File` with a module has a locale) -/
+example : (compareQ (fresh 0 [none]) ⟨[97], some [98], none⟩ [.missing [120] 1] ⟨0, 0, 0, 0, 0⟩).toOption.isNone = true := by
+  decide +kernel
+
+/-! ### keys -/
+
+/-- the marker is removed once, whatever follows: `re:re:x` compiles `re:x`, `re:external` compiles `external`,
+    `re::` compiles `:`; a literal key is escaped and gets the `$`: `a+b` compiles `a\+b$` -/
+example : compiledKeyText (T "re:re:x") = T "re:x" ∧ compiledKeyText (T "re:external") = T "external" ∧
+    compiledKeyText (T "re::") = T ":" ∧ compiledKeyText (T "re:") = [] ∧
+    compiledKeyText (T "a+b") = T "a\\+b$" ∧ compiledKeyText (T "re") = T "re$" ∧ compiledKeyText (T "r:e:x") = T "r:e:x$" := by
+  decide
+
+/-- `match`, not `search`: the `re:` key `ne` does not accept the entity `one`; it accepts `next` (start only, no `$`) -/
+example : (compileKey ⟨T "re:ne", .seq (.lit 110) (.lit 101)⟩).matches (T "one") = false ∧
+    (compileKey ⟨T "re:ne", .seq (.lit 110) (.lit 101)⟩).matches (T "next") = true := by decide
+
+/-- `literal_branch_is_translation` needs the translation to have the literal shape: `one.*` has not -/
+example : litDollarText (.seq (.lit 111) (.rep 0 none true (.any false))) = none ∧
+    litDollarText (escapedDollar one) = some one := by decide
+
+/-! ### legacy filter.py -/
+
+/-- a callable: entity `one` → `"report"`, entity `two` → `None`, files → `False`, everything else raises -/
+def py : PyFilter := fun _ _ e =>
+  if e == some one then .str [114, 101, 112, 111, 114, 116] else if e == some two then .none
+  else if e == none then .bool false else .raised
+def fileP : FileP := ⟨[1], de, none, [97]⟩
+def leafP (f : Option PyFilter) : ConfigP := .mk f (some [de]) [⟨everywhere, none⟩] [] [] []
+
+/-- the callable wins at the root (report → warning, None stays None, False → ignore, raising → error); as an
+    INCLUDED configuration its callable is dead (the paths cover, no rules: error); as an EXCLUDED one it is consulted
+    (file verdict ignore: the exclude does not fire; with `True` it fires) -/
+example :
+    filterP (leafP (some py)) fileP (some one) = .ok (some .warning) ∧ filterP (leafP (some py)) fileP (some two) = .ok none ∧
+    filterP (leafP (some py)) fileP none = .ok (some .ignore) ∧ filterP (leafP (some py)) fileP (some [120]) = .ok (some .error) ∧
+    filterP (.mk none (some [de]) [] [] [leafP (some py)] []) fileP none = .ok (some .error) ∧
+    filterP (.mk none (some [de]) [⟨everywhere, none⟩] [] [] [leafP (some py)]) fileP none = .ok (some .error) ∧
+    filterP (.mk none (some [de]) [⟨everywhere, none⟩] [] [] [leafP (some (fun _ _ _ => .bool true))]) fileP none
+      = .ok (some .ignore) := by decide
+
+/-- `filterp_no_py` needs `noPy`: with the callable the answer differs from the rule semantics of the erased tree -/
+example : filterP (leafP (some py)) fileP none = .ok (some .ignore) ∧
+    filter (erase (leafP (some py))) fileP.toFile none = .error := by decide
+
+/-- the guards: rules then callable / callable then rules → AssertionError; an included configuration with excludes,
+    an excluded configuration whose included one has excludes → ExcludeError -/
+example :
+    ((addRulesP ConfigP.empty [⟨.one everywhere, none, .ignore⟩]).bind (fun c => setFilterPy c py)).toOption.isNone = true ∧
+    ((setFilterPy ConfigP.empty py).bind (fun c => addRulesP c [])).toOption.isNone = true ∧
+    ((addRulesP ConfigP.empty []).bind (fun c => setFilterPy c py)).toOption.isSome = true ∧
+    (addChild ConfigP.empty (.mk none none [] [] [] [ConfigP.empty])).toOption.isNone = true ∧
+    (excludeP ConfigP.empty (.mk none none [] [] [.mk none none [] [] [] [ConfigP.empty]] [])).toOption.isNone = true ∧
+    (excludeP ConfigP.empty (.mk none none [] [] [ConfigP.empty] [])).toOption.isSome = true := by decide
+
+/-- `set_locales(["de"], deep=True)` on a parent without locales whose included configuration names `fr` only:
+    afterwards `de` is named and `fr` is not; the excluded configuration keeps its own locales -/
+example :
+    (allLocalesP (setLocalesDeep (.mk none none [] [] [leafP none] [leafP none]) (some [[102, 114]]))) = [[102, 114], [102, 114]] ∧
+    (setLocalesDeep (.mk none none [] [] [] [leafP none]) (some [[102, 114]])).excludes.map (·.locales) = [some [de]] := by
+  decide
+
+end ExamplesR4
 
 end C14
